@@ -537,7 +537,17 @@ func loadhistChild() {
 			}
 			var err error
 			runOn(who, step, func() {
+				// VERIF_LOAD_NOFILE=1 (hostile surroundings): no file can be opened while the load runs (soft
+				// RLIMIT_NOFILE 0), unless the request itself asks the kernel for a descriptor (listener flag, 8)
+				var old syscall.Rlimit
+				starve := os.Getenv("VERIF_LOAD_NOFILE") == "1" && flags&8 == 0 && syscall.Getrlimit(syscall.RLIMIT_NOFILE, &old) == nil
+				if starve {
+					syscall.Setrlimit(syscall.RLIMIT_NOFILE, &syscall.Rlimit{Cur: 0, Max: old.Max})
+				}
 				err = seccomp.LoadFilter(seccomp.Filter{NoNewPrivs: nnp, Flag: seccomp.FilterFlag(flags), Policy: pol})
+				if starve {
+					syscall.Setrlimit(syscall.RLIMIT_NOFILE, &old)
+				}
 			})
 			msg := ""
 			if err != nil {
